@@ -824,10 +824,27 @@ def records_to_tuples(trees):
                     continue
                 # annotations were already removed; any other mention (isinstance, attribute of the class, ...) blocks
                 blocked_cls.add(n.id)
-            elif isinstance(n, ast.Attribute) and n.attr in recs and isinstance(parents.get(n), ast.Call) and parents[n].func is n:
-                blocked_cls.add(n.attr)
+            elif isinstance(n, ast.Attribute) and n.attr in recs:
+                # `utils._Rec(..)` / `sfc_models.utils._Rec(..)`: the class reached through its module (a dotted chain of names) and
+                # called at once is the same constructor call; any other mention through an attribute blocks
+                p = parents.get(n)
+                base = n.value
+                while isinstance(base, ast.Attribute):
+                    base = base.value
+                if isinstance(p, ast.Call) and p.func is n and isinstance(base, ast.Name):
+                    names = [f for f, _ in recs[n.attr][1]]
+                    if any(isinstance(a, ast.Starred) for a in p.args) or any(k.arg is None or k.arg not in names for k in p.keywords) or \
+                            len(p.args) > len(names) or (p.keywords and not all(isinstance(k.value, (ast.Name, ast.Constant)) for k in p.keywords)):
+                        blocked_cls.add(n.attr)
+                else:
+                    blocked_cls.add(n.attr)
+    # a field spelled like a method / attribute of a builtin container or string (`values`, `count`, `index`, ..) cannot be told
+    # from that method by its name: such a class is left to the flattener, which converts record objects held in a local
+    builtin_attrs = set()
+    for ty_ in (dict, list, tuple, str, set, int, float, object):
+        builtin_attrs.update(dir(ty_))
     for f, owners in field_owner.items():
-        if len({i for _c, i in owners}) > 1 or f in blocked_fields:
+        if len({i for _c, i in owners}) > 1 or f in blocked_fields or f in builtin_attrs:
             for c, _i in owners:
                 blocked_cls.add(c)
     live = {c: v for c, v in recs.items() if c not in blocked_cls}
@@ -843,8 +860,9 @@ def records_to_tuples(trees):
         def visit_Call(self, node):
             nonlocal count
             self.generic_visit(node)
-            if isinstance(node.func, ast.Name) and node.func.id in live:
-                fields = live[node.func.id][1]
+            cname_ = node.func.id if isinstance(node.func, ast.Name) else (node.func.attr if isinstance(node.func, ast.Attribute) else None)
+            if cname_ in live:
+                fields = live[cname_][1]
                 vals = list(node.args) + [None] * (len(fields) - len(node.args))
                 for k in node.keywords:
                     vals[[f for f, _ in fields].index(k.arg)] = k.value
